@@ -199,6 +199,13 @@ pub fn exec(reg: &Registry, st: &mut State, line: &str) -> Outcome {
                     if r2 != Ok(expect.clone()) {
                         o.fails.push(("init_denotes".into(), format!("initialized bytes parse to {:?}", r2.map(|v| show_val(&shape, &v)))));
                     }
+                    // accounts: serialize_account_from_init(i) must deserialize to the denotation of i
+                    if t.is_account() {
+                        let (r3, _) = guarded(|| t.des_account(&b).ok_or_else(|| "bad-op".to_string())?);
+                        if r3 != Ok(expect.clone()) {
+                            o.fails.push(("account_roundtrip".into(), format!("deserialize_account(serialize_account_from_init(i)) = {:?}, expected {}", r3.map(|v| show_val(&shape, &v)), show_val(&shape, &expect))));
+                        }
+                    }
                     o
                 }
                 Ok(Some((_, Err(e)))) => {
